@@ -81,7 +81,7 @@ def leaf_domains(sc) -> dict:
             consumers = p.node_outputs(n)
             if n is p.output or not consumers:
                 if isinstance(sl, L.CategoricalLayer) and name == "probs":
-                    d = "pos"
+                    d = "simplex"  # probabilities: the layer's contract is a normalised distribution
                 elif isinstance(sl, L.BinomialLayer) and name == "probs":
                     d = "unit"
                 elif isinstance(sl, L.GaussianLayer) and name == "stddev":
@@ -97,7 +97,7 @@ def leaf_domains(sc) -> dict:
                         d = "pos"
             # keep the most restrictive
             prev = dom.get(n)
-            rank = {"any": 0, "pos": 1, "unit": 2}
+            rank = {"any": 0, "pos": 1, "unit": 2, "simplex": 3}
             if prev is None or rank[d] > rank[prev]:
                 dom[n] = d
     return dom
@@ -112,6 +112,9 @@ def draw(rng: np.random.Generator, shape, domain: str, cls: str, dtype) -> np.nd
         return v
     if domain == "unit":
         return rng.uniform(0.03, 0.97, size=shape)
+    if domain == "simplex":
+        v = rng.uniform(0.05, 1.0, size=shape)
+        return v / v.sum(axis=-1, keepdims=True)
     if domain == "pos":
         lo, hi = (0.2, 2.5) if cls != "wide" else (0.05, 6.0)
         return rng.uniform(lo, hi, size=shape)
